@@ -357,19 +357,31 @@ Section Gen.
   Lemma wf_attr_inv var : wf_attr var = true ->
     v_is KAttribute var = true /\ var_common var = true /\ v_clazz var = None /\ v_factory var = None
     /\ reserved_name (v_qname var) = false
-    /\ exists t, v_types var = [t] /\ simple_type t = true
-         /\ match v_tokens_factory var with
-            | None => simple_default t (v_default var) = true
-            | Some f => factory_default f (v_default var) = true
-            end.
+    /\ exists t, v_types var = [t]
+         /\ ((simple_type t = true
+              /\ match v_tokens_factory var with
+                 | None => simple_default t (v_default var) = true
+                 | Some f => factory_default f (v_default var) = true
+                 end)
+             \/ (t = TQName /\ v_tokens_factory var = None /\ v_default var = DNone)).
   Proof.
     unfold wf_attr. intros H. peel H H4. peel H H3. peel H H2. peel H H1. peel H Hnw. peel H H0.
     destruct (v_clazz var); [discriminate|]. destruct (v_factory var); [discriminate|].
     apply negb_true_iff in H3.
     unfold var_type in H4. destruct (v_types var) as [|t [|? ?]] eqn:Et; try discriminate.
-    apply andb_true_iff in H4 as [Hs Hd].
-    repeat split; try assumption. exists t. split; [reflexivity|]. split; [exact Hs|].
-    destruct (v_tokens_factory var); exact Hd.
+    repeat split; try assumption. exists t. split; [reflexivity|].
+    assert (Hsimple : simple_type t && match v_tokens_factory var with
+                                       | None => simple_default t (v_default var)
+                                       | Some f => factory_default f (v_default var)
+                                       end = true ->
+              simple_type t = true /\ match v_tokens_factory var with
+                                      | None => simple_default t (v_default var) = true
+                                      | Some f => factory_default f (v_default var) = true
+                                      end).
+    { intros Hx. apply andb_true_iff in Hx as [Hs Hd]. split; [exact Hs|]. destruct (v_tokens_factory var); exact Hd. }
+    destruct t; try (left; apply Hsimple; exact H4).
+    right. apply andb_true_iff in H4 as [Ht Hd]. split; [reflexivity|].
+    destruct (v_tokens_factory var); [discriminate Ht|]. destruct (v_default var); try discriminate Hd. split; reflexivity.
   Qed.
 
   Lemma default_value_call d : default_value d = match d with
@@ -406,16 +418,28 @@ Section Gen.
       destruct (Bool.eqb _ t); try (eexists; reflexivity); destruct l; eexists; reflexivity.
   Qed.
 
+  Lemma simple_not_qname t : simple_type t = true -> ptype_eqb t TQName = false.
+  Proof. destruct t; try reflexivity; discriminate. Qed.
+
   Lemma attr_step_ok cl fs m var :
     map fst fs = map v_name (get_all_vars m) -> In var (get_all_vars m) ->
     wf_attr var = true -> fits_attr var (field_of fs var) = true ->
     attr_step c u (VObj cl fs) ign var
     = Ok (map (fun a => WAttr (fst a) (snd a)) (g_attr var (field_of fs var))).
   Proof.
-    intros Hn Hin Hw Hf. destruct (wf_attr_inv var Hw) as [Hk [Hc [Hcl [Hfa [Hr [t [Ht [Hs Hd]]]]]]]].
+    intros Hn Hin Hw Hf. destruct (wf_attr_inv var Hw) as [Hk [Hc [Hcl [Hfa [Hr [t [Ht Hty0]]]]]]].
     unfold attr_step. rewrite Hk. rewrite (getattr_field cl fs m var Hn Hin). cbn [gbind].
     set (x := field_of fs var) in *.
     unfold Fits.fits_attr, vtype in Hf. rewrite Ht in Hf.
+    destruct Hty0 as [[Hs Hd]|[Et [Htf0 Hd0]]].
+    2:{ (* a QName attribute *)
+        subst t. rewrite Htf0 in Hf. cbn [ptype_eqb] in Hf.
+        destruct x as [|p| | | | |] eqn:Ex; try discriminate; [reflexivity|].
+        unfold qleaf_ok in Hf. apply andb_true_iff in Hf as [_ Hq]. destruct p as [| | | | | |q| |]; try discriminate Hq.
+        unfold g_attr. cbn [is_array andb].
+        rewrite (var_is_optional_ok var (VP (PQName q))); [|rewrite Hd0; eexists; reflexivity].
+        destruct ign; cbn [andb gbind]; [destruct (opt_skip var (VP (PQName q))); reflexivity|reflexivity]. }
+    rewrite (simple_not_qname t Hs) in Hf.
     destruct (v_tokens_factory var) as [tf|] eqn:Etf.
     - destruct x as [| |tt l| | | |] eqn:Ex; try discriminate.
       apply andb_true_iff in Hf as [Hflag Htok].
@@ -549,7 +573,7 @@ Section Gen.
 
   Lemma wf_text_inv var : wf_text var = true ->
     v_is KText var = true /\ var_common var = true
-    /\ exists t, v_types var = [t] /\ simple_type t = true
+    /\ exists t, v_types var = [t] /\ (simple_type t = true \/ (t = TQName /\ v_tokens_factory var = None))
          /\ match v_tokens_factory var with
             | None => v_default var = DNone
             | Some f => factory_default f (v_default var) = true
@@ -558,8 +582,21 @@ Section Gen.
     unfold wf_text. intros H. peel H Hsq. peel H H4. peel H H3. peel H H2. peel H Hnw. peel H H1.
     split; [exact H|]. split; [exact H1|].
     unfold var_type in H4. destruct (v_types var) as [|t [|? ?]]; try discriminate.
-    apply andb_true_iff in H4 as [Hs Hd]. exists t. repeat split; try assumption.
-    destruct (v_tokens_factory var); [exact Hd|]. destruct (v_default var); try discriminate. reflexivity.
+    exists t. split; [reflexivity|].
+    assert (Hsimple : simple_type t && match v_tokens_factory var with
+                                       | None => match v_default var with DNone => true | _ => false end
+                                       | Some f => factory_default f (v_default var)
+                                       end = true ->
+              (simple_type t = true \/ (t = TQName /\ v_tokens_factory var = None))
+              /\ match v_tokens_factory var with
+                 | None => v_default var = DNone
+                 | Some f => factory_default f (v_default var) = true
+                 end).
+    { intros Hx. apply andb_true_iff in Hx as [Hs Hd]. split; [left; exact Hs|].
+      destruct (v_tokens_factory var); [exact Hd|]. destruct (v_default var); try discriminate. reflexivity. }
+    destruct t; try (apply Hsimple; exact H4).
+    apply andb_true_iff in H4 as [Ht Hd]. destruct (v_tokens_factory var); [discriminate Ht|].
+    split; [right; split; reflexivity|]. destruct (v_default var); try discriminate. reflexivity.
   Qed.
 
   Lemma convert_element_plain var x w :
@@ -1374,8 +1411,11 @@ Section Gen.
           destruct (v_tokens_factory var) as [tf|].
           + destruct x as [| |tt l| | | |]; try discriminate Hft. apply andb_true_iff in Hft as [_ Htk].
             rewrite (encode_tokens t _ tt l Htk). reflexivity.
-          + destruct x as [|p| | | | |]; try discriminate Hft; [congruence|]. apply andb_true_iff in Hft as [Hp _].
-            rewrite (encode_leaf t _ p Hp). reflexivity. }
+          + destruct x as [|p| | | | |]; try discriminate Hft; [congruence|].
+            destruct (ptype_eqb t TQName) eqn:Etq.
+            * unfold qleaf_ok in Hft. apply andb_true_iff in Hft as [_ Hq]. destruct p as [| | | | | |q1| |]; try discriminate Hq.
+              reflexivity.
+            * apply andb_true_iff in Hft as [Hp _]. rewrite (encode_leaf t _ p Hp). reflexivity. }
     cbn [gbind bflat app]. f_equal. f_equal. f_equal.
     - symmetry. apply map_flat_map_l.
     - f_equal. rewrite flat_map_flat_map. reflexivity.
